@@ -58,6 +58,8 @@ def bases(tier):
     out.append(('D', bro2))
     T = IR.recursive_templates()
     for name in T:
+        if name == 'lin-three':
+            continue      # 13 rules: its presentation space alone would dominate the check; solver-specific, covered by C02/C03/C11
         dom = 2 if any(T[name]['term'][t] for t in T[name]['term']) else 1
         ws = list(IR.template_weightings(T[name], [Fraction(1, 4), Fraction(1, 2), Fraction(1, 8)], 3, dom))
         picks = [ws[5 % len(ws)], ws[-2]] + ([ws[1]] if tier == 'thorough' else [])
